@@ -691,6 +691,14 @@ def run(tier, args):
         "0x80000000, 0xFFFFFFFF, 2^32, INT64 min/max, -0x80000000, -0x80000001, random 32/64-bit); probe immediate-stack-argument rotates them through "
         "every position of the 14-integer and 14+12 callees. Seeded change C05-3 (is_uint32 instead of is_int32 in move_imm_to_stack_arg) is caught by "
         "the probe and by x64:miscompile keys of every profile; f32 arguments and immediates for register-passed doubles (refused by AsmJit) are not generated",
+        "generated functions take up to 31 parameters after the buffer pointer (6 fixed signatures, the largest 14 integer + 17 double, so that 9+9 "
+        "parameters arrive on the stack; Globals::kMaxFuncArgs = 32); double parameters are bound to 64-bit and to wider 128-bit virtual registers, "
+        "frames with and without preserved FP, 32/64-byte spill slots; every bound parameter is dumped. A share of programs embeds data inside the "
+        "function (after the final ret, after early rets, behind unconditional / annotated jumps; jump tables inside the function): falling into it "
+        "traps on x86-64, and for the compile-only targets the instruction before every embedded data block must be jmp/ret (b/br/ret). Seeded "
+        "changes C05-5 (is_next_to ignores data nodes) and C07-5 (_update_stack_args before adjust_slot_offsets) are caught by their probes and by "
+        "random programs of most profiles; bt/bts/btr/btc with register index and vpgatherdd zmm{k} are generated (probes bt-register-base-spilled, "
+        "gather-mask-written)",
         "not generated: calling conventions other than SysV/cdecl for helper calls (x86-32: cdecl/stdcall/fastcall function signatures are compiled only), "
         "MMX/x87 registers, ms_abi callees, string instructions with REP",
     ]
